@@ -12,7 +12,7 @@ register(Harness("c09_defer", "C09", lambda P: reharness.make_sweep(P, oracles.c
                  goals=["paused", "resumed", "request-after-last-message"], functions=_fns, mode="schedule", symbolic=SYM, out_of_bound=OUT, stubs=STUBS,
                  require_exhaustive=True))
 register(Harness("c09_defer_two", "C09", lambda P: reharness.make_sweep(P, oracles.c09_deferred, plans=["sparse", "bare"] if P["tier"] == "quick" else PLANS_T,
-                                                                         kinds=["defer"], decisions=["resume"], two=True),
+                                                                         kinds=["defer"], kinds2=["defer", "suspend", "pause"], decisions=["resume"], two=True),
                  {"quick": dict(shards=16, window=6, budget_s=300, per_path_s=30), "thorough": dict(shards=48, window=12, budget_s=3000, per_path_s=30)},
                  goals=["paused", "resumed"], functions=_fns, mode="schedule", symbolic=SYM + "; plus a second request of any kind within `window` steps",
                  out_of_bound=OUT, stubs=STUBS, require_exhaustive=True))
